@@ -82,6 +82,37 @@ def run_hammer(prop, tier, w, vh, idx, limit):
     return out
 
 
+ORDER_CLAUSES = {"C02": ["ExactlyOnce", "NoLostWakeup"], "C03": ["Order"]}
+
+
+def run_order(prop, tier, w, vh, seed):
+    """order histories: process-API senders (incl. failing sends, SetSendPriority) and log messages against a parked receiver"""
+    import fam
+    name = "ORDER"
+    out = {"scenario": name, "violations": []}
+    trace = "trace_%s.ndjson" % name
+    n = 200 if tier == "quick" else 3000
+    rc, so, se, to = vlib.run_vh(vh, ["proccore", "-order", str(n), "-seed", str(seed), "-out", os.path.join(w, trace), "-node", "vhpc%d_ord@localhost" % os.getpid()], timeout=900)
+    if rc != 0 or to:
+        raise vlib.Infra("order mode failed rc=%s timeout=%s: %s" % (rc, to, (se or so)[-1500:]))
+    out["harness"] = json.loads(so.strip().splitlines()[-1])
+    fam.write_mc(w, "MC_Order", "MailboxOrder", {}, {"TraceFile": '"%s"' % trace, "Checks": fam.tla_set(ORDER_CLAUSES[prop])}, constraint="HWM", postcondition="TraceAccepted")
+    r = vlib.run_tlc(w, "MC_Order.tla", "MC_Order.cfg", workers=1, timeout=900)
+    if re.search(r'TRACE_REJECTED_AT_LINE', r.out):
+        raise vlib.Infra("MailboxOrder could not consume the trace: %s" % r.out[-800:])
+    hits = [(m.group(1), int(m.group(2))) for m in re.finditer(r'"CLAUSE_VIOLATED", "(\w+)", "LINE", (\d+)', r.out)]
+    if r.rc != 0 and not hits:
+        raise vlib.Infra("MailboxOrder validation failed: %s" % (r.error or r.out[-1200:]))
+    lines = open(os.path.join(w, trace)).read().splitlines()
+    for clause, line in hits[:5]:
+        out["violations"].append({"clause": clause, "scenario": {"name": name, "order_history": True}, "plan": line, "at_event": None, "execution": [json.loads(lines[line - 1])]})
+    out["obs"] = {"accepted": not hits, "executions": out["harness"]["plans"] - len(hits), "wall": round(r.wall, 1), "states": r.distinct}
+    if hits:
+        out["obs"]["clause"] = hits[0][0]
+    out["sample_plan"] = json.loads(lines[0])
+    return out
+
+
 def parse_post(out):
     m = re.search(r'"CLAUSE_VIOLATED", "(\w+)", "LINE", (\d+)', out)
     if m:
@@ -218,6 +249,8 @@ def main(prop, tier):
             futs = [ex.submit(run_scenario, prop, tier, scn, w, vh, seed * 7919 + i, None, free) for i, (scn, free) in enumerate(jobs)]
             for f in futs:
                 results.append(f.result())
+        if prop in ORDER_CLAUSES:
+            results.append(run_order(prop, tier, w, vh, seed))
         # the high-volume mode wants the cores for itself: run it after the controlled replays
         results.append(run_hammer(prop, tier, w, vh, 0, 0))
         if tier == "thorough" or prop == "C02":
@@ -226,7 +259,7 @@ def main(prop, tier):
         violations = [(r["scenario"], v) for r in results for v in r["violations"]]
         states = sum(r.get("u1", {}).get("distinct", 0) for r in results)
         trans = sum(r.get("u1", {}).get("generated", 0) for r in results)
-        execs_obs = sum(r.get("obs", {}).get("executions", 0) for r in results if r.get("obs", {}).get("accepted"))
+        execs_obs = sum(r.get("obs", {}).get("executions", 0) for r in results if r.get("obs", {}).get("accepted") or r["scenario"] == "ORDER")
         execs_core = sum(r.get("core", {}).get("executions", 0) for r in results if r.get("core", {}).get("accepted"))
         drift = [r["drift"] for r in results if r.get("drift")]
         stalls = sum(r.get("harness", {}).get("stalls", 0) for r in results)
